@@ -87,6 +87,17 @@ PrivateFetch(g) ==
   /\ pc' = [pc EXCEPT ![g] = "ret"]
   /\ UNCHANGED <<now, up, ttls, gen, wlock, key, fetched, missed, last>>
 
+\* the caller's context ends while the upstream query is outstanding: the lookup fails like any failed query (the entry is
+\* dropped, nothing is cached), and says nothing about the data
+Abandon(g) == /\ pc[g] = "fetch"
+              /\ cache' = [cache EXCEPT ![key[g]] = None] /\ wlock' = [wlock EXCEPT ![key[g]] = 0]
+              /\ got' = [got EXCEPT ![g] = [kind |-> "timeout", gen |-> -1, at |-> now, f |-> now]] /\ pc' = [pc EXCEPT ![g] = "ret"]
+              /\ UNCHANGED <<now, up, ttls, gen, key, fetched, upq, missed, last>>
+AbandonPrivate(g) == /\ pc[g] \in {"fast", "wantlock"} /\ missed[g]
+                     /\ cache' \in {cache, [cache EXCEPT ![key[g]] = None]}
+                     /\ got' = [got EXCEPT ![g] = [kind |-> "timeout", gen |-> -1, at |-> now, f |-> now]] /\ pc' = [pc EXCEPT ![g] = "ret"]
+                     /\ UNCHANGED <<now, up, ttls, gen, wlock, key, fetched, upq, missed, last>>
+
 Return(g) == /\ pc[g] = "ret" /\ pc' = [pc EXCEPT ![g] = "idle"]
              /\ last' = [last EXCEPT ![g] = [kind |-> got[g].kind, gen |-> got[g].gen, upq |-> upq[g], at |-> now, key |-> key[g]]]
              /\ UNCHANGED <<now, up, ttls, gen, cache, wlock, key, got, fetched, upq, missed>>
@@ -98,7 +109,7 @@ Change(k) == /\ gen[k] < MaxGen /\ gen' = [gen EXCEPT ![k] = gen[k] + 1]
              /\ UNCHANGED <<now, up, ttls, cache, wlock, pc, key, got, fetched, upq, missed, last>>
 Toggle == /\ up' = ~up /\ UNCHANGED <<now, ttls, gen, cache, wlock, pc, key, got, fetched, upq, missed, last>>
 
-GoStep(g) == (\E k \in Keys : Call(g, k)) \/ FastRead(g) \/ Lock(g) \/ Recheck(g) \/ Fetch(g) \/ Store(g) \/ PrivateFetch(g) \/ Return(g)
+GoStep(g) == (\E k \in Keys : Call(g, k)) \/ FastRead(g) \/ Lock(g) \/ Recheck(g) \/ Fetch(g) \/ Store(g) \/ PrivateFetch(g) \/ Abandon(g) \/ AbandonPrivate(g) \/ Return(g)
 Next == (\E g \in Gs : GoStep(g)) \/ Advance \/ (\E k \in Keys : Change(k)) \/ Toggle
 Spec == Init /\ [][Next]_vars
 
